@@ -30,10 +30,12 @@ class RAM(MemoryType):
 
     def read(self, address, size):
         chunk = self.memory_array[address:address + size]
-        return chunk
+        return chunk + bytes(size - len(chunk))
 
     def write(self, address, size, value):
-        self.memory_array[address:address + size] = value
+        end = min(address + size, len(self.memory_array))
+        if address < end:
+            self.memory_array[address:end] = value[:end - address]
 
 
 MEMORY_TYPE_DICT = {
